@@ -47,22 +47,23 @@ type vfoCmd struct {
 }
 
 type vfoScn struct {
-	Name      string
-	Keys      []string
-	Txn       bool
-	Pipeline  bool
-	BC        int
-	Cmds      []vfoCmd
-	During    []vfdoubles.Sched
-	Cross     bool   // transactional stream with a batch spanning two nodes
-	NoFollow  bool   // plain mode with handleMoveErr/handleAskErr switched off in the configuration
-	Fault     string // er | cb | ac injected at request FaultAt ("" = none)
-	FaultAt   int
-	CpBatch   bool // only the checkpoint ticker flushes: data commands and checkpoint HSETs share one batch
-	StallOn   bool // hold node StallNode until every command routed elsewhere has executed (the sender is then idle)
-	StallNode int
-	Resume    bool // plain modes: EnableResumeFromBreakPoint, the checkpoint offset is stored on the target
-	CpRetry   bool // resumable run whose FIRST checkpoint flush fails on the checkpoint key's redirect and is retried
+	Name         string
+	Keys         []string
+	Txn          bool
+	Pipeline     bool
+	BC           int
+	Cmds         []vfoCmd
+	During       []vfdoubles.Sched
+	Cross        bool   // transactional stream with a batch spanning two nodes
+	NoFollow     bool   // plain mode with handleMoveErr/handleAskErr switched off in the configuration
+	Fault        string // er | cb | ac injected at request FaultAt ("" = none)
+	FaultAt      int
+	CpBatch      bool // only the checkpoint ticker flushes: data commands and checkpoint HSETs share one batch
+	CloseOutside bool // the run is closed from outside while the pipelined sender is blocked handing a dispatched batch to the receiver
+	StallOn      bool // hold node StallNode until every command routed elsewhere has executed (the sender is then idle)
+	StallNode    int
+	Resume       bool // plain modes: EnableResumeFromBreakPoint, the checkpoint offset is stored on the target
+	CpRetry      bool // resumable run whose FIRST checkpoint flush fails on the checkpoint key's redirect and is retried
 }
 
 func vfoEncode(args ...string) []byte {
@@ -213,6 +214,18 @@ func vfoRun(scn *vfoScn) (*vfoResult, error) {
 			}
 		}
 		go func() {
+			if scn.CloseOutside {
+				// the node stays silent: the receiver waits for the first batch, the sender dispatches
+				// ahead until the hand-over channel is full and blocks there; then the run is closed
+				// from outside (leadership change, shutdown …). The node is released after the run has
+				// returned (below), so whatever was dispatched shows up in its execution log.
+				for i := 0; i < 40000 && d.HeldCount() == 0; i++ {
+					time.Sleep(250 * time.Microsecond)
+				}
+				time.Sleep(150 * time.Millisecond) // lets the sender fill the channel; only detection power depends on it
+				cancel()
+				return
+			}
 			if scn.CpBatch {
 				// the data node answers only after the checkpoint node has applied the offset - or,
 				// when no offset comes although the data node has been holding its commands for
@@ -272,6 +285,20 @@ func vfoRun(scn *vfoScn) (*vfoResult, error) {
 			} else {
 				time.Sleep(200 * time.Microsecond)
 			}
+		}
+	}
+	if scn.CloseOutside {
+		// the run has returned: release the node and wait until its execution log is stable
+		d.Unstall(scn.StallNode)
+		prev, same := -1, 0
+		for i := 0; i < 400 && same < 20; i++ {
+			_, ex, _ := d.Snapshot()
+			if len(ex) == prev {
+				same++
+			} else {
+				prev, same = len(ex), 0
+			}
+			time.Sleep(5 * time.Millisecond)
 		}
 	}
 	early := finished // returned before the input ended: a target error was reported
@@ -466,6 +493,15 @@ func vfoMonitor(scn *vfoScn, res *vfoResult) []vfoViol {
 			}
 		}
 	}
+	if scn.Txn {
+		// transactional mode never follows a redirect nor re-sends: a command reaches a node once
+		for _, c := range scn.Cmds {
+			if res.Arrivals[c.ID] > 1 {
+				out = append(out, vfoViol{"txn-batch-dispatched-twice", fmt.Sprintf("cmd %d reached a node %d times within one run (its batch was dispatched again)", c.ID, res.Arrivals[c.ID]), ""})
+				break
+			}
+		}
+	}
 	if res.Stalled {
 		out = append(out, vfoViol{"sender-stalled", fmt.Sprintf("sendAof neither finished the stream nor returned (err=%v)", res.Err), ""})
 	}
@@ -498,7 +534,9 @@ func vfoGen(r *vfutil.Rand, name string, force string) *vfoScn {
 		scn.CpRetry = true
 	case "nofollow-block":
 		scn.NoFollow = true
-	case "cpbatch-block":
+	case "close-outside":
+		scn.Txn, scn.Pipeline, scn.CloseOutside = true, true, true
+	case "cpbatch-block", "cpbatch-block-1", "cpbatch-block-2":
 		scn.CpBatch, scn.Resume, scn.Fault = true, true, "er"
 	case "cpbatch-pipe":
 		scn.CpBatch, scn.Resume, scn.Fault, scn.Pipeline = true, true, "er", true
@@ -523,7 +561,10 @@ func vfoGen(r *vfutil.Rand, name string, force string) *vfoScn {
 	}
 	cpNode := vfdoubles.ClusterSlot("vfcp") * 3 / 16384
 	var tags []string
-	if scn.CpBatch {
+	if scn.CloseOutside {
+		scn.StallOn, scn.StallNode = true, r.Intn(3)
+		tags = vfoTagsOnNode(scn.StallNode, 2, name)
+	} else if scn.CpBatch {
 		// all data on one node that is not the checkpoint key's node
 		scn.StallOn, scn.StallNode = true, (cpNode+1)%3
 		tags = vfoTagsOnNode(scn.StallNode, 2, name)
@@ -557,6 +598,15 @@ func vfoGen(r *vfutil.Rand, name string, force string) *vfoScn {
 	}
 	if scn.CpBatch {
 		n, scn.FaultAt = 6, 0
+		// exactly one / two data commands queued when the position is flushed
+		if force == "cpbatch-block-1" {
+			n = 1
+		} else if force == "cpbatch-block-2" {
+			n = 2
+		}
+	}
+	if scn.CloseOutside {
+		n, scn.BC = 8, 1
 	}
 	for i := 0; i < n; i++ {
 		t := r.Intn(len(tags))
@@ -573,7 +623,7 @@ func vfoGen(r *vfutil.Rand, name string, force string) *vfoScn {
 		}
 		return scn
 	}
-	if scn.Fault != "" || scn.CpRetry {
+	if scn.Fault != "" || scn.CpRetry || scn.CloseOutside {
 		return scn // faults on a stable cluster; cp-retry has its own schedule
 	}
 	// migration schedule by request count; a slot never returns to a node it left
@@ -677,6 +727,8 @@ func vfoOne(t *testing.T, s *vfutil.Session, idx int, scn *vfoScn) {
 	switch {
 	case scn.Txn && scn.Cross:
 		cls = "crossslot"
+	case scn.CloseOutside:
+		cls = "closed" // sendFuncOnce fails because the run was closed: reported at once, nothing re-sent
 	case scn.CpRetry:
 		// the position batch is answered MOVED to an unreachable node once, the re-sent queue goes through
 		cls, pers = "redirect", "once"
@@ -764,7 +816,7 @@ func TestVerifC19Out(t *testing.T) {
 	idx := 0
 	// every mode with a redirect / cross-slot batch at least a few times
 	for _, f := range []string{"txn-block", "txn-block", "txn-block", "txn-pipe", "txn-pipe", "txn-cross", "txn-cross",
-		"nofollow-block", "nofollow-pipe", "cpbatch-block", "cpbatch-pipe", "fault", "fault", "fault", "fault", "fault", "fault"} {
+		"nofollow-block", "nofollow-pipe", "cpbatch-block", "cpbatch-block-1", "cpbatch-block-2", "cpbatch-pipe", "close-outside", "fault", "fault", "fault", "fault", "fault", "fault"} {
 		vfoOne(t, s, idx, vfoGen(r.Fork(), fmt.Sprintf("f%d", idx), f))
 		idx++
 	}
